@@ -77,14 +77,24 @@ type PodCfg struct {
 }
 
 type Cfg struct {
+	LogReads bool     `json:"logReads"` // log get/list calls too (needed to judge mid-reconcile interleavings)
 	TGP      int      `json:"tgp"`      // NodeClaim spec.terminationGracePeriod in seconds, <0 = none
 	Instant  bool     `json:"instant"`  // provider Delete removes the instance at once
 	Pods     []PodCfg `json:"pods"`     // pods of the node
 	OrphanVA bool     `json:"orphanVA"` // a VolumeAttachment on the node that no pod owns
 }
 
+// MidStep: environment steps executed right before the At-th API call (reads included) of the reconcile - the
+// choke point's gate runs them inside the controller's goroutine, which realises API-call-granularity interleavings
+// (time-of-check / time-of-use windows) deterministically and without touching the code.
+type MidStep struct {
+	At    int    `json:"at"`
+	Steps []Step `json:"steps"`
+}
+
 type Step struct {
 	A          string      `json:"a"`
+	Mid        []MidStep   `json:"mid"`
 	Pod        string      `json:"pod"`
 	Faults     []FaultSpec `json:"faults"`
 	ProvCreate string      `json:"provCreate"` // ok | ICE | NCNR | err
@@ -209,6 +219,24 @@ func (s *sim) bracket(controller, object string, st Step, view trace.M, f func()
 	// view: the (possibly lagging) informer copy the reconcile was handed, for the eviction queue
 	s.w.Emit(trace.M{"e": "Begin", "controller": controller, "object": object, "stale": st.Stale, "view": view})
 	errS, panicked, requeue := "-", false, false
+	if len(st.Mid) > 0 {
+		n := 0
+		s.w.Gate = func(c world.Call) {
+			if c.Actor != controller {
+				return
+			}
+			n++
+			for _, m := range st.Mid {
+				if m.At == n {
+					s.w.Emit(trace.M{"e": "Skip", "a": "Mid", "why": fmt.Sprintf("before call %d (%s %s)", n, c.Verb, c.Kind)})
+					for _, x := range m.Steps {
+						_ = s.step(x)
+					}
+				}
+			}
+		}
+		defer func() { s.w.Gate = nil }()
+	}
 	func() {
 		defer func() {
 			if r := recover(); r != nil {
@@ -562,6 +590,7 @@ func RunOne(b Behaviour, tw *trace.Writer) error {
 	w := world.New()
 	w.Prov.Types = world.DefaultCatalog()
 	w.Prov.InstantTerminate = b.Cfg.Instant
+	w.LogReads = b.Cfg.LogReads
 	s := &sim{w: w, cfg: b.Cfg, ctx: world.Ctx()}
 	podPV, names := map[string]string{}, []string{}
 	for _, pc := range b.Cfg.Pods {
